@@ -15,6 +15,7 @@
  */
 #pragma once
 
+#include <unifex/detail/verif_hooks.hpp>
 #include <unifex/cancellable.hpp>
 #include <unifex/get_stop_token.hpp>
 #include <unifex/receiver_concepts.hpp>
@@ -165,11 +166,14 @@ void async_mutex::lock_raw_sender::_op<Receiver>::type::start() noexcept {
   // complete us, potentially destroying *this.
   async_mutex& mutex = mutex_;
 
+  UNIFEX_VERIF_POINT(295);
   mutex.queue_.push_back(this);
+  UNIFEX_VERIF_POINT(296);
 
   // Dekker fence: orders the push before the locked_ exchange.
   std::atomic_thread_fence(std::memory_order_seq_cst);
 
+  UNIFEX_VERIF_POINT(297);
   if (!mutex.locked_.exchange(true, std::memory_order_acq_rel)) {
     mutex.process_queue();
   }
@@ -185,6 +189,7 @@ void async_mutex::lock_raw_sender::_op<Receiver>::type::stop() noexcept {
     }
     return;
   }
+  UNIFEX_VERIF_POINT(298);
   if (mutex_.queue_.try_remove(this)) {
     cancelled_ = true;
     if (try_complete(this)) {
